@@ -18,6 +18,64 @@ func channelRules(c *Ctx) {
 			getQ.undecided("PATH", "attempt closure", "expected one closure of Channel.Get calling TryRecv")
 		} else {
 			a := &fq{c: c, fn: as[0], name: an.FuncName(as[0])}
+			// what the attempt decided is what Get returns: once the attempt reported that it is finished (it took or
+			// replayed a value, or found the Channel closed) nothing overwrites the results on the way out - a late
+			// "the caller's context is cancelled by now" would fail a Get that has already consumed a value
+			{
+				var site *ssa.Call
+				for _, in := range an.AllInstrs(getQ.fn, func(in ssa.Instruction) bool {
+					call, ok := in.(*ssa.Call)
+					if !ok {
+						return false
+					}
+					if mc, isMC := call.Call.Value.(*ssa.MakeClosure); isMC && mc.Fn == ssa.Value(as[0]) {
+						return true
+					}
+					// (or a helper method analysed as part of Get)
+					return an.TransparentCallee(call) == as[0]
+				}) {
+					site = in.(*ssa.Call)
+				}
+				if site == nil {
+					getQ.undecided("PATH", "the attempt's verdict is final", "the call of the attempt closure was not found")
+				} else {
+					ifs, negs := P.IfsOn(getQ.fn, func(cond ssa.Value) bool {
+						if cond == ssa.Value(site) {
+							return true
+						}
+						// the "finished" flag as one of several results
+						ex, isE := cond.(*ssa.Extract)
+						return isE && ex.Tuple == ssa.Value(site) && isBoolT(ex)
+					})
+					okf := len(ifs) == 1
+					if okf {
+						ts := 0
+						if negs[0] {
+							ts = 1
+						}
+						// from the "finished" edge: no store and no call before the return
+						start := ifs[0].Block().Succs[ts]
+						if len(start.Instrs) > 0 {
+							touched := func(in ssa.Instruction) bool {
+								switch x := in.(type) {
+								case *ssa.Store:
+									// (copying the attempt's own results into the result slots is not a new decision)
+									if ex, isE := x.Val.(*ssa.Extract); isE && ex.Tuple == ssa.Value(site) {
+										return false
+									}
+									return true
+								case *ssa.Call:
+									return true
+								}
+								return false
+							}
+							first := start.Instrs[0]
+							okf = !touched(first) && !P.PathExists(getQ.fn, first, touched, an.IsReturn, cutEdge(ifs[0], 1-ts))
+						}
+					}
+					getQ.add("PATH", "the attempt's verdict is final", okf, pickS(okf, "from the attempt's 'finished' edge Get returns without writing its results again", "after the attempt has taken (or replayed) a value Get can still replace its results - e.g. by a late check of the caller's context - so a Get fails although it consumed a value, which is then never returned"), site)
+				}
+			}
 			// the receiver is reached through a captured cell: name it from a field load
 			rbLoads := an.FieldLoads(a.fn, "Channel.rollback")
 			bufLoads := an.FieldLoads(a.fn, "Channel.buffer")
